@@ -3,6 +3,7 @@ import Driver.C04
 import Driver.C15
 import Driver.C16
 import Driver.Client
+import Driver.C06
 /-!
 `lvdriver`: reads one case per line (tab separated, first field = operation), replays it
 through the Lean model M and the specification S, and prints one answer per line:
@@ -31,6 +32,7 @@ def dispatch (line : String) : String :=
     | "argv" => C16.argvOp args
     | "envcheck" => C16.envcheckOp args
     | "client" => ClientOp.clientOp args
+    | "tls" => C06.tlsOp args
     | "mailparam" => C04.mailparamOp args
     | "ehlocmd" => C04.ehlocmdOp args
     | "mailstd" => C04.mailstdOp args
